@@ -41,6 +41,7 @@ type facts struct {
 	ProbeChecksCtxFirst bool
 	ProbeBoundToCtx     bool
 	GracefulSequence    []string
+	GracefulStopAlways  bool     // shutdownGracefully: lb.Stop() is a top-level statement and no return precedes it
 	ProxyFlushImmediate bool     // AddBackend sets proxy.FlushInterval = -1
 	TransportNoCompress bool     // the backend transport has DisableCompression: true
 	LbWriterMethods     []string // methods responseWriter defines itself (everything else is the embedded writer's)
@@ -457,6 +458,36 @@ func main() {
 	}
 	mainPkg := parseDir(filepath.Join(repo, "cmd/helios"))
 	if fd := findFunc(mainPkg, "", "shutdownGracefully"); fd != nil {
+		// the balancer is stopped on every path: the call is a statement of the function body itself
+		// and nothing returns (or exits) before it
+		stopAt := -1
+		for i, st := range fd.Body.List {
+			if es, ok := st.(*ast.ExprStmt); ok {
+				if ce, ok := es.X.(*ast.CallExpr); ok && selText(ce.Fun) == "lb.Stop" {
+					stopAt = i
+					break
+				}
+			}
+		}
+		early := false
+		if stopAt >= 0 {
+			for _, st := range fd.Body.List[:stopAt] {
+				ast.Inspect(st, func(n ast.Node) bool {
+					switch v := n.(type) {
+					case *ast.FuncLit:
+						return false
+					case *ast.ReturnStmt:
+						early = true
+					case *ast.CallExpr:
+						if t := selText(v.Fun); t == "os.Exit" || t == "panic" || strings.HasSuffix(t, ".Fatal") || strings.HasSuffix(t, ".Panic") {
+							early = true
+						}
+					}
+					return true
+				})
+			}
+		}
+		f.GracefulStopAlways = stopAt >= 0 && !early
 		ast.Inspect(fd, func(n ast.Node) bool {
 			if ce, ok := n.(*ast.CallExpr); ok {
 				switch selText(ce.Fun) {
@@ -737,6 +768,7 @@ func main() {
 	fmt.Fprintf(&sb, "def probeChecksCtxFirst : Bool := %s\n", b(f.ProbeChecksCtxFirst))
 	fmt.Fprintf(&sb, "def probeBoundToCtx : Bool := %s\n", b(f.ProbeBoundToCtx))
 	fmt.Fprintf(&sb, "def gracefulSequence : List String := %s\n", q(f.GracefulSequence))
+	fmt.Fprintf(&sb, "def gracefulStopAlways : Bool := %s\n", b(f.GracefulStopAlways))
 	fmt.Fprintf(&sb, "def proxyFlushImmediate : Bool := %s\n", b(f.ProxyFlushImmediate))
 	fmt.Fprintf(&sb, "def transportNoCompress : Bool := %s\n", b(f.TransportNoCompress))
 	fmt.Fprintf(&sb, "def lbWriterMethods : List String := %s\n", q(f.LbWriterMethods))
